@@ -75,6 +75,26 @@ def gen_case(rng, tier, n_params=None, chain=False, inexact=False):
         mdl["post_values"] = dict(case["update_var"])      # the exact oracle applies them too
     if n >= 3 and rng.random() < 0.15 and not chain:
         case["auto_parnames"] = {"3": "gain"}
+    if not chain and n <= 12 and rng.random() < 0.2:
+        # two nodes built from the same node template: the second instance of every variable is renamed `<name>_v1`; its slots follow the first node's, in declaration order
+        def ren(e):
+            t = e[0]
+            if t == "var": return ["var", e[1] + "_v1"]
+            if t in ("add", "sub", "mul"): return [t, ren(e[1]), ren(e[2])]
+            if t == "neg": return [t, ren(e[1])]
+            if t == "pow": return [t, ren(e[1]), e[2]]
+            if t == "call": return [t, e[1], [ren(a) for a in e[2]]]
+            return e
+        mdl["circuit"]["nodes"] = {"p": "N", "q": "N"}
+        o = mdl["ops"]["O"]
+        case["check_ops"] = {"O": o, "O_v1": {"name": o["name"], "eqs": [{"lhs": q["lhs"] + "_v1", "de": q["de"], "rhs": ren(q["rhs"])} for q in o["eqs"]],
+                                               "vars": {k + "_v1": d for k, d in o["vars"].items()}}}
+        case["decl_params"] = decl_order + [nm + "_v1" for nm in decl_order]
+        case["states2"] = [s_ + "_v1" for s_ in states]
+        for pt in case["points"]:
+            for s_ in states:
+                pt[f"q/aop/{s_}"] = C.q2s(F(rng.randint(-3, 3), rng.choice([1, 2])))
+        case.pop("auto_parnames", None)
     if rng.random() < 0.4:
         # another export in the same process first: the same equations with the parameters declared in reverse order (another slot layout)
         case["pre_export_reversed"] = True
@@ -194,7 +214,7 @@ def deviations(case, res, slots, tables):
     bad = []
     decl = case["decl_params"]
     n = len(decl)
-    opsd = case["mdl"]["ops"]
+    opsd = case.get("check_ops") or case["mdl"]["ops"]
     op = {"eqs": [e for o in opsd.values() for e in o["eqs"]]}
     # the values PyRates was given are the float64 nearest to the declared rationals
     val = {k: F(float(F(d["value"]))) for o in opsd.values() for k, d in o["vars"].items() if d["decl"] != "input"}
@@ -312,7 +332,7 @@ def check(tier, seed, replay=None):
         if "crash" in im:
             raise C.HarnessError("harness child crashed: " + str(im)[:800])
         n = len(case["decl_params"])
-        rep.count(f"export-{case['scenario']}" + ("-jac" if case["jac"] else "") + ("-chain" if case.get("states2") else "") + ("-inexact" if case.get("inexact") else ""), json.dumps(case, sort_keys=True), nontrivial=n > 9)
+        rep.count(f"export-{case['scenario']}" + ("-jac" if case["jac"] else "") + ("-chain" if case.get("states2") else "") + ("-inexact" if case.get("inexact") else "") + ("-twin" if case.get("check_ops") else ""), json.dumps(case, sort_keys=True), nontrivial=n > 9)
         slots = drv.ask({"comp": "auto", "lo": lo, "hi": hi, "n": n})["slots"]
         dev = deviations(case, im, slots, tables)
         # vector field
